@@ -688,7 +688,16 @@ func childMain(specPath string) {
 	}
 	// all callers have returned: now close (Close concurrent with calls is out of scope)
 	if !c.CloseBusy {
-		mainW.call("quiesce", func() error { drive.Quiesce(eng); return nil })
+		// a flush signal that was queued while the last flush ran starts
+		// another flush (of the active table) right after it: wait twice
+		mainW.call("quiesce", func() error {
+			for i := 0; i < 3; i++ {
+				drive.Quiesce(eng)
+				time.Sleep(40 * time.Millisecond)
+			}
+			drive.Quiesce(eng)
+			return nil
+		})
 	}
 	mainW.call("close", func() error {
 		err := eng.Close()
